@@ -18,6 +18,19 @@ def op2 (name : String) (a b : Value) : Option Value :=
   | "gt" => some (gtV a b)
   | "ge" => some (geV a b)
   | "in" => some (inV a b)
+  -- `parse_unary_tests` wraps the tests in an expression list
+  | "in_eq" => some (inV a (.exprList [b]))
+  | "in_lt" => some (inV a (.exprList [.unaryLt b]))
+  | "in_le" => some (inV a (.exprList [.unaryLe b]))
+  | "in_gt" => some (inV a (.exprList [.unaryGt b]))
+  | "in_ge" => some (inV a (.exprList [.unaryGe b]))
+  | "nin_eq" => some (inV a (.negList [b]))
+  | "nin_lt" => some (inV a (.negList [.unaryLt b]))
+  | "nin_le" => some (inV a (.negList [.unaryLe b]))
+  | "nin_gt" => some (inV a (.negList [.unaryGt b]))
+  | "nin_ge" => some (inV a (.negList [.unaryGe b]))
+  | "nin_two" => some (inV a (.negList [.unaryLt b, .unaryGe b]))
+  | "in_two" => some (inV a (.exprList [.unaryLt b, .unaryGe b]))
   | _ => none
 
 def handle (args : List Sexp) : String :=
